@@ -147,6 +147,31 @@ func (e *Encoder) writeMap(data interface{}) (int, error) {
 	return count, nil
 }
 
+// setMapEntry stores a decoded entry in m: a null key or value stands for the
+// zero value of the key / element type (the end of a map is its 'Z', not a
+// null), and both are converted to those types
+func setMapEntry(m reflect.Value, key, value interface{}) {
+	k := reflect.New(m.Type().Key()).Elem()
+	if key != nil {
+		setMapEntryPart(k, EnsureRawValue(key))
+	}
+	v := reflect.New(m.Type().Elem()).Elem()
+	if value != nil {
+		setMapEntryPart(v, EnsureRawValue(value))
+	}
+	m.SetMapIndex(k, v)
+}
+
+func setMapEntryPart(dest, v reflect.Value) {
+	if dest.Kind() == reflect.Interface {
+		if v.IsValid() {
+			dest.Set(v)
+		}
+		return
+	}
+	SetValue(dest, v)
+}
+
 //readTypedMap read typed map
 func (d *Decoder) readTypedMap() (interface{}, error) {
 	typ, err := d.readType()
@@ -179,17 +204,12 @@ func (d *Decoder) readTypedMap() (interface{}, error) {
 			return nil, err
 		}
 
-		//nil map
-		if key == nil {
-			break
-		}
-
 		value, err := d.ReadData()
 		if err != nil {
 			return nil, err
 		}
 		if mType.Kind() == reflect.Map {
-			mValue.SetMapIndex(EnsureRawValue(key), EnsureRawValue(value))
+			setMapEntry(mValue, key, value)
 		} else {
 			fieldName, ok := key.(string)
 			if !ok {
@@ -220,11 +240,6 @@ func (d *Decoder) readUntypedMap() (interface{}, error) {
 				break
 			}
 			return nil, err
-		}
-
-		// nil map
-		if key == nil {
-			break
 		}
 
 		value, err := EnsureInterface(d.ReadData())
@@ -275,15 +290,11 @@ func (d *Decoder) readMap(dest reflect.Value) error {
 			}
 		}
 
-		if key == nil {
-			break
-		}
-
 		vl, err := d.ReadData()
 		if err != nil {
 			return err
 		}
-		mPtrValue.Elem().SetMapIndex(EnsureRawValue(key), EnsureRawValue(vl))
+		setMapEntry(mPtrValue.Elem(), key, vl)
 	}
 	SetValue(dest, mPtrValue)
 	return nil
